@@ -643,6 +643,9 @@ class IH5Record(IH5Group):
         if self._has_writable or self._ublock(-1).hdf5_hashsum is None:
             # (an uncommitted patch is not writable if the record was opened read-only)
             raise ValueError("Cannot merge, please commit or discard your changes!")
+        if self._ublock(0).prev_patch is not None:
+            # patches without their base: deletions cannot be represented in the result
+            raise ValueError("Cannot merge, the base container is missing!")
 
         with type(self)(target, "x") as ds:
             source_node = self["/"]
